@@ -1,6 +1,7 @@
 package main
 
 import (
+	"encoding/json"
 	"flag"
 	"fmt"
 	"os"
@@ -41,7 +42,11 @@ func main() {
 	if len(os.Args) < 2 {
 		usage()
 	}
+	loadDict()
 	switch os.Args[1] {
+	case "dict": // what was mined from $VERIF_REPO
+		b, _ := json.MarshalIndent(map[string]any{"summary": dict.summary(), "origins": dict.origins, "hosts": dict.hosts, "schemes": dict.schemes, "tokens": dict.tokens, "ports": dict.ports, "status": dict.status, "sizes": dict.sizes}, "", " ")
+		fmt.Println(string(b))
 	case "list":
 		var ids []string
 		for id := range engines {
